@@ -89,6 +89,7 @@ class LspServer:
         self.hold_next_create = False
         self.capabilities = None
         self.closed = False
+        self.nudges = set()
 
     # -- transport ----------------------------------------------------------------------
     def _read_loop(self):
@@ -202,7 +203,10 @@ class LspServer:
         method = msg.get("method")
         if method is None:
             if "id" in msg:
-                self.responses[msg["id"]] = msg
+                if msg["id"] in self.nudges:
+                    self.nudges.discard(msg["id"])
+                else:
+                    self.responses[msg["id"]] = msg
             return
         params = msg.get("params") or {}
         if "id" in msg:                                   # server -> client request
@@ -245,6 +249,7 @@ class LspServer:
                 msg = self.q.get(timeout=0.5)
             except queue.Empty:
                 self._check_stderr()
+                self.nudge()
                 if self.proc.poll() is not None and self.q.empty():
                     raise LspDied(f"{self.name}: process exited with {self.proc.returncode} while waiting for {what}")
                 if time.time() > deadline:
@@ -255,6 +260,17 @@ class LspServer:
                 raise LspDied(f"{self.name}: stdout closed while waiting for {what} "
                               f"(exit {self.proc.poll()})")
             self._handle(msg)
+
+    def nudge(self):
+        """Liveness aid, not a synchronisation signal.  Backend handlers log (client.log_message)
+        before they forward a notification to the server thread; tower-lsp's client channel
+        (futures mpsc, capacity 1) can park such a handler until *later* outbound messages are
+        consumed.  When nothing has arrived for 0.5 s, an empty workspace/willRenameFiles (answered by
+        the Backend alone, no effect on the server thread) makes one more log message flow."""
+        if self.capabilities is None or self.closed or self.proc.poll() is not None:
+            return
+        rid = self.request_async("workspace/willRenameFiles", {"files": []})
+        self.nudges.add(rid)
 
     # -- protocol helpers ---------------------------------------------------------------
     def initialize(self):
